@@ -92,6 +92,19 @@ def c13_role(args):
     return None
 
 
+@check('C13.model_table')
+def c13_model_table(args):
+    """a shipped model never defines a role together with its own inverse spelling (else inverting the
+    role is no involution and an edge read back from its other end is a different edge)"""
+    m = get_model(args['model'])
+    r = args['role']
+    if specs.role_defined(m, r) and specs.role_defined(m, r + '-of'):
+        i1 = m.invert_role(r)
+        return ('the %s model defines both %r and %r: invert_role(%r) = %r, invert_role of that = %r'
+                % (args['model'], r, r + '-of', r, i1, m.invert_role(i1)))
+    return None
+
+
 @check('C13.terminates')
 def c13_terminates(args):
     m, noop = table(args)
@@ -115,7 +128,10 @@ def c13_cls(args, detail):
         tgt = norms[ci]
         if tgt in norms or m.canonicalize_role(tgt) != tgt or not tgt.startswith(':'):
             return 'N6'
-    # N7: the model defines both r and r-of
+    # N7: the model defines both r and r-of (recorded for role tables a user writes; a shipped model
+    # that starts doing so is a new violation)
+    if not isinstance(args['table'], dict):
+        return None
     for x in (c, m.invert_role(c), rc):
         if m._has_role(x) and m._has_role(x + '-of'):
             return 'N7'
@@ -178,6 +194,16 @@ def run_C13(R):
         for b in bases:
             for k in range(5):
                 R.check('C13.role', {'table': tb, 'role': b + '-of' * k})
+    # every role the shipped models define (patterns instantiated from the tables themselves), as written
+    # and with one to three inversion suffixes
+    for tb in ('amr', 'miniamr', 'custom', 'noop'):
+        own = gens.model_roles(table({'table': tb})[0])
+        for b in (own if not R.quick else R.rnd.sample(own, min(len(own), 40))):
+            for k in range(4):
+                R.check('C13.role', {'table': tb, 'role': b + '-of' * k})
+        if tb == 'amr':
+            for b in own:
+                R.check('C13.model_table', {'model': tb, 'role': b})
     pool = [':a', ':b', ':a-of', ':b-of-of', ':c[0-9]', ':x-of', ':q.*', ':y-of-of-of', ':z-.*']
     for i in range(60 if R.quick else 600):
         roles = R.rnd.sample(pool, R.rnd.randint(0, 4))
